@@ -182,6 +182,7 @@ def watchdog_map(fn_mod, fn_name, items, per_item_timeout, procs=4, extra=None):
     results = [None] * len(items)
     pending = list(range(len(items)))
     running = {}          # parent connection -> (index, process, deadline)
+    retried = set()
     while pending or running:
         while pending and len(running) < procs:
             i = pending.pop(0)
@@ -203,6 +204,12 @@ def watchdog_map(fn_mod, fn_name, items, per_item_timeout, procs=4, extra=None):
                 if p.is_alive():
                     p.kill()
                 del running[conn]
+                if status == "err" and val == "child died without a result" and i not in retried:
+                    # (seen once with code under test that loses output of reused thread ids: the same item is tried
+                    # again in a new child; dying twice is a machinery failure)
+                    retried.add(i)
+                    pending.append(i)
+                    continue
                 if status == "err":
                     for _, q, _ in running.values():
                         q.kill()
